@@ -79,6 +79,15 @@ TBackendFault == Is("BackendFault")
                /\ Step
 TPostLookup == Is("PostLookup") /\ (E.found <=> pending[E.id] # "none") /\ R!PostLookup(E.id)
                /\ Step
+\* another upload attempt of a victim reaches the proxy: the previous one was aborted (PostAborted ; PostLookup,
+\* composed by hand) - the waiter found is the same one
+TPostRelookup == Is("PostLookup") /\ plook[E.id] # "none" /\ wreq[E.id] \in TVictims
+               /\ w[E.id] \in {"forward", "backend", "retry", "upload", "failed"}   \* ("failed": the harness reports the fault at the first cut)
+               /\ (E.found <=> pending[E.id] # "none")
+               /\ plook' = [plook EXCEPT ![E.id] = IF pending[E.id] = "none" THEN "nf" ELSE pending[E.id]]
+               /\ faults' = faults + 1 /\ hit' = hit \cup {wreq[E.id]}
+               /\ UNCHANGED <<pc, idOf, pending, ps, batch, agent, cur, seen, w, wreq, wresp, inflight, delivered, calls, handed>>
+               /\ Step
 \* hand-composition LocalAnswer ; Handoff (TLC has no action composition): the agent answered
 \* without the backend (502 of ReverseProxy, 4xx of the shim) and the proxy hands that over
 KindOf(st) == IF st = 502 THEN "502" ELSE "status" \o ToString(st)
@@ -126,7 +135,7 @@ TFinal      == Is("Final") /\ Stutter
                /\ (\A r \in TReq : (pc[r] # "new" /\ r \notin TVictims) => delivered[r] = <<"ok", r>>)
                /\ Step
 TNext == TReset \/ TClientSend \/ TRegister \/ TListStart \/ TRecv \/ TListReply \/ TListOK \/ TDedup
-         \/ TSpawn \/ TFetch \/ TWForward \/ TBackend \/ TBackendReply \/ TBackendFault \/ TPostLookup
+         \/ TSpawn \/ TFetch \/ TWForward \/ TBackend \/ TBackendReply \/ TBackendFault \/ TPostLookup \/ TPostRelookup
          \/ TClientResp \/ TClientRecv \/ TClientCancel \/ TClientGaveUp \/ TFault \/ TWServed
          \/ TWClosed \/ TPostFault \/ TFetchFault \/ TOther \/ TFinal
 
